@@ -272,6 +272,7 @@ Definition SpecStep (dg : content -> string) (before : list (list (string * copy
       (ok (o_code a) -> exists b, o_body a = Some b /\ dg b = h /\ o_cl a = Some (clen b)) /\
       (ok (o_code a) <-> IntactSomewhere dg h before)
   | Put h d => ok (o_code a) -> dg d = h /\ IntactSomewhere dg h (o_after a)
+  | PutShort h d n => ok (o_code a) -> dg d = h /\ IntactSomewhere dg h (o_after a)
   end.
 
 Inductive SpecSteps (dg : content -> string) : list (list (string * copy)) -> list op -> list obs -> Prop :=
@@ -350,10 +351,10 @@ Qed.
 
 Lemma spec_step_iff dg before o a : spec_step dg before o a = true <-> SpecStep dg before o a.
 Proof.
-  destruct o as [h|h|h d]; cbn [spec_step SpecStep]; try apply spec_get_iff.
-  rewrite orb_true_iff, negb_true_iff, andb_true_iff, String.eqb_eq, intact_somewhere_iff. split.
-  - intros [A|A] Hok; [apply ok2_iff in Hok; congruence|exact A].
-  - intros Himp. destruct (ok2 (o_code a)) eqn:E; [right; apply Himp; apply ok2_iff; exact E|left; reflexivity].
+  destruct o as [h|h|h d|h d n]; cbn [spec_step SpecStep]; try apply spec_get_iff.
+  all: rewrite orb_true_iff, negb_true_iff, andb_true_iff, String.eqb_eq, intact_somewhere_iff; split;
+    [ intros [A|A] Hok; [apply ok2_iff in Hok; congruence|exact A]
+    | intros Himp; destruct (ok2 (o_code a)) eqn:E; [right; apply Himp; apply ok2_iff; exact E|left; reflexivity] ].
 Qed.
 
 Lemma spec_steps_iff dg : forall ops before os, spec_steps dg before ops os = true <-> SpecSteps dg before ops os.
@@ -374,7 +375,7 @@ Proof. apply spec_steps_iff. Qed.
 (* the model's own trace satisfies the specification: for every digest function, every set of
    volumes, every request list (block names used by the requests must be among the listed names) *)
 
-Definition op_name (o : op) : string := match o with Get h | Head h | Put h _ => h end.
+Definition op_name (o : op) : string := match o with Get h | Head h | Put h _ | PutShort h _ _ => h end.
 
 Section M.
 Variable H : content -> string.
@@ -396,7 +397,11 @@ Qed.
 Lemma model_step_spec names s o : In (op_name o) names ->
   SpecStep H (map (listing_of names) (vols s)) o (obs_of names (handle H s o)).
 Proof.
-  intros Hn. destruct o as [h|h|h d]; cbn [op_name] in Hn; cbn [handle SpecStep obs_of fst snd].
+  intros Hn. destruct o as [h|h|h d|h d n]; cbn [op_name] in Hn; cbn [handle SpecStep obs_of fst snd].
+  4: { (* a PUT whose body does not arrive completely is never acknowledged *)
+       cbn [o_code]. intros Hok. exfalso. unfold handle_put_short in Hok.
+       destruct (BlockSize <? n); [vm_compute in Hok; discriminate|].
+       destruct (writable (vols s)); vm_compute in Hok; discriminate. }
   1,2: (destruct (servable_listing names (vols s) h Hn) as [S1 S2]; split;
     [ intros Hok; unfold handle_get in *; destruct (get_block H (vols s) h 404) as [c|e] eqn:Eg; cbn [code body clength o_code o_body o_cl] in *;
       [ exists c; destruct (get_sound _ _ _ _ _ Eg) as (v & _ & _ & _ & X); auto
